@@ -12,7 +12,9 @@ CHECKS = {
              "to and stays owned (C01_only_done_makes_have, C01_owned_stays); serving and advertising read that state (C09, C11). "
              "Tie: the components by their own correspondences (C08-C12), plus end-to-end runs of the real Session, real "
              "PeerHandler tasks and real piece files against misbehaving scripted peers (corrupt, wrong offset, duplicates, garbage, "
-             "disconnects): every advert a remote receives is checked against the store at that instant, every file re-hashed.",
+             "disconnects): every advert a remote receives is checked against the store at that instant, every file re-hashed; plus "
+             "a manager-side part (completion histories on the real Session with duplicate completions, kills and joiners: the extractor "
+             "is started only when every piece is owned, ownership arises only through the assignee's PieceDone).",
         note="Partial: that the piece the manager marks is the piece the task verified (task's piece_rx index = manager's piece_index for "
              "that peer under every interleaving) is not proved in Coq; it is exercised end to end. SHA-1 uninterpreted. Torn file on crash "
              "during fs::write not modelled. No axioms.",
@@ -28,7 +30,9 @@ CHECKS = {
              "random segmentation/delays, late unchokes, disconnecting / corrupting extras, 16 KiB-scale geometries): every run must "
              "complete, extract byte-identical files, start the extractor and not panic.",
         note="Partial: termination under weak fairness follows from the variant + enabledness arguments only on paper; the fairness of "
-             "tokio's scheduler, TCP, real timers and the terminal UI task are not modelled; the end-to-end runs are exploration, not proof. No axioms.",
+             "tokio's scheduler, TCP, real timers and the terminal UI task are not modelled; the end-to-end runs are exploration, not proof. "
+             "Two known findings (known_findings.json: sole-holder-idle-after-reserver-left, sole-holder-have-while-reserved): a sole holder "
+             "that is idle when the reservation holder leaves is never re-asked; the check prints KNOWN-FINDING for them and reports any other failure. No axioms.",
         technique="Coq proof of the safety/variant ingredients + end-to-end exploration of the composed system",
         design="2/C02"),
     "C03": dict(
